@@ -2,7 +2,7 @@
    the corresponding WHOLE methods of /repo's retrospective.py, regenerated on every run (Generated/SrcRetroGen.v, by
    harness/py2gal.py with the configurations C13_SAMPLE_SEG ... of harness/src_functions.py), for all inputs. *)
 From Coq Require Import ZArith List Bool Arith Lia ZifyBool Permutation.
-From Batchie Require Import Lib.Sexp Lib.PyRt Model.Encode Model.Screen Model.Retro Model.RetroHoldout Model.RetroInit
+From Batchie Require Import Lib.Sexp Lib.PyRt Model.Encode Model.Screen Model.Retro Model.Pairwise Model.RetroHoldout Model.RetroInit
   Generated.SrcRetro Generated.SrcRetroGen Proofs.PyRtLemmas Proofs.C11Lib Proofs.C11Select Proofs.C13SampleSeg Proofs.C13Optimal Proofs.C13NPlate Proofs.C13Filter Proofs.C11Init Proofs.C13SparseTerm Proofs.C11Source.
 Import ListNotations.
 Open Scope nat_scope.
@@ -946,4 +946,136 @@ Theorem src_sparse_cover_terminates : forall ctrl reveal rows ds,
 Proof.
   intros ctrl reveal rows ds Hobs HC Hlen. rewrite src_sparse_cover_is_model by (right; lia).
   now apply sparse_cover_terminates.
+Qed.
+
+(* ---------- filter_dataset_to_treatments_that_appear_in_at_least_one_combo (data.py) ---------- *)
+Lemma forallb_map {A B} (g : A -> B) (p : B -> bool) : forall l, forallb p (map g l) = forallb (fun x => p (g x)) l.
+Proof. induction l as [|a l IH]; [reflexivity|]. cbn [map forallb]. now rewrite IH. Qed.
+Lemma forallb_ext' {A} (p q : A -> bool) : (forall x, p x = q x) -> forall l, forallb p l = forallb q l.
+Proof. intros H. induction l as [|a l IH]; [reflexivity|]. cbn [forallb]. now rewrite H, IH. Qed.
+Lemma vselect_map_map {A B} (f : A -> bool) (g : A -> B) : forall l, vselect (map f l) (map g l) = map g (filter f l).
+Proof. induction l as [|a l IH]; [reflexivity|]. cbn [map vselect filter]. destruct (f a); cbn [map]; now rewrite IH. Qed.
+
+Theorem src_combo_filter_is_model : forall ctrl arity rows,
+  src_combo_filter ctrl arity rows = combo_filter ctrl arity rows.
+Proof.
+  intros ctrl arity rows. unfold src_combo_filter, combo_filter, screen_arity.
+  destruct (arity <? 2) eqn:E; [apply Nat.ltb_lt in E|apply Nat.ltb_ge in E].
+  - destruct (Z.of_nat arity <? 2)%Z eqn:E2; [reflexivity|lia].
+  - destruct (Z.of_nat arity <? 2)%Z eqn:E2; [lia|].
+    assert (all_rows (not2 (is_sentinel2 (treatment_ids ctrl rows))) = map (full_combo ctrl) rows) as ->.
+    { unfold all_rows, not2, is_sentinel2, treatment_ids, full_combo. rewrite !map_map. apply map_ext. intros r.
+      now rewrite !forallb_map. }
+    unfold rows_where, treatment_ids at 2. rewrite vselect_map_map. fold (all_tids ctrl (filter (full_combo ctrl) rows)).
+    fold (combo_tids ctrl rows).
+    assert (subset_of rows (all_rows (isin2 (treatment_ids ctrl rows) (combo_tids ctrl rows ++ [None])))
+            = filter (fun r => forallb (fun t => tid_eqb t None || tid_mem t (combo_tids ctrl rows)) (row_tids ctrl r)) rows) as ->.
+    { unfold subset_of, all_rows, isin2, treatment_ids. rewrite !map_map, <- filter_vselect. apply filter_ext. intros r.
+      rewrite forallb_map. apply forallb_ext'. intros t. rewrite tid_mem_app. unfold tid_mem at 2. cbn [existsb].
+      rewrite orb_false_r. apply orb_comm. }
+    destruct (construct _); reflexivity.
+Qed.
+
+(* ---------- end to end: the translated wrappers of core.py around the translated inner methods ---------- *)
+Lemma wrap_ext1 : forall (f g : inner) rows ds,
+  f (unobserved rows) ds = g (unobserved rows) ds -> wrap f rows ds = wrap g rows ds.
+Proof. intros f g rows ds H. unfold wrap. now rewrite H. Qed.
+
+Theorem src_sample_seg_end_to_end : forall mx rows ds, (0 <= mx)%Z ->
+  ss_contract mx (unobserved rows) (sample_names (unobserved rows)) ds ->
+  src_generate_plates (src_sample_seg_generate_plates mx) rows ds = generate_plates (GSampleSeg true mx) rows ds.
+Proof.
+  intros mx rows ds Hmx HC. rewrite src_generate_plates_is_wrap. unfold generate_plates, generate_inner.
+  apply wrap_ext1. now apply src_sample_seg_is_model.
+Qed.
+
+Theorem src_plate_permutation_end_to_end : forall force rows ds,
+  src_generate_plates (src_plate_permutation_generate_plates force) rows ds
+  = generate_plates (GPerm (match force with Some l => l | None => [] end)) rows ds.
+Proof.
+  intros force rows ds. rewrite src_generate_plates_is_wrap. unfold generate_plates, generate_inner.
+  apply wrap_ext1. apply src_plate_permutation_is_model.
+Qed.
+
+Theorem src_fixed_size_end_to_end : forall t rows ds,
+  src_smooth_plates (src_fixed_size_smooth_plates t) rows ds = smooth_plates (SFixed t) rows ds.
+Proof.
+  intros t rows ds. rewrite src_smooth_plates_is_wrap. unfold smooth_plates, smooth_inner.
+  apply wrap_ext1. apply src_fixed_size_is_model.
+Qed.
+
+Theorem src_optimal_size_end_to_end : forall rows ds,
+  src_smooth_plates src_optimal_size_smooth_plates rows ds = smooth_plates SOptimal rows ds.
+Proof.
+  intros rows ds. rewrite src_smooth_plates_is_wrap. unfold smooth_plates, smooth_inner.
+  apply wrap_ext1. apply src_optimal_size_is_model.
+Qed.
+
+Theorem src_nplate_end_to_end : forall m rows ds,
+  src_smooth_plates (fun s d => dor r <- src_nplate_smooth_plates m s; Ok (r, d)) rows ds
+  = smooth_plates (SNPlate true m) rows ds.
+Proof.
+  intros m rows ds. rewrite src_smooth_plates_is_wrap. unfold smooth_plates, smooth_inner, pure_sm.
+  apply wrap_ext1. now rewrite src_nplate_is_model.
+Qed.
+
+Theorem src_ensemble_end_to_end : forall ms n m rows ds fuel, length rows < fuel ->
+  src_smooth_plates (fun s d => src_ensemble_smooth_plates ms n m s d fuel) rows ds
+  = smooth_plates (SEnsemble true ms n m) rows ds.
+Proof.
+  intros ms n m rows ds fuel Hfuel. rewrite src_smooth_plates_is_wrap. unfold smooth_plates, smooth_inner.
+  apply wrap_ext1. apply src_ensemble_is_model. pose proof (unobserved_length rows). lia.
+Qed.
+
+(* ---------- the statements of Props/C13.v ---------- *)
+Theorem link_sample_segregating_generate_plates : forall mx rows ds, (0 <= mx)%Z ->
+  src_sample_seg_generate_plates mx rows ds = sample_seg_checked mx rows ds /\
+  (ss_contract mx rows (sample_names rows) ds -> src_sample_seg_generate_plates mx rows ds = sample_seg true mx rows ds) /\
+  (ss_contract mx (unobserved rows) (sample_names (unobserved rows)) ds ->
+   src_generate_plates (src_sample_seg_generate_plates mx) rows ds = generate_plates (GSampleSeg true mx) rows ds).
+Proof.
+  intros mx rows ds H. split; [exact (src_sample_seg_is_checked_model mx rows ds H)|]. split.
+  - exact (src_sample_seg_is_model mx rows ds H).
+  - exact (src_sample_seg_end_to_end mx rows ds H).
+Qed.
+
+Theorem link_plate_permutation_generate_plates : forall force rows ds,
+  src_plate_permutation_generate_plates force rows ds = plate_perm (match force with Some l => l | None => [] end) rows ds /\
+  src_generate_plates (src_plate_permutation_generate_plates force) rows ds
+  = generate_plates (GPerm (match force with Some l => l | None => [] end)) rows ds.
+Proof. intros. split; [apply src_plate_permutation_is_model | apply src_plate_permutation_end_to_end]. Qed.
+
+Theorem link_fixed_size_smooth_plates : forall t rows ds,
+  src_fixed_size_smooth_plates t rows ds = size_smooth t rows ds /\
+  src_smooth_plates (src_fixed_size_smooth_plates t) rows ds = smooth_plates (SFixed t) rows ds.
+Proof. intros. split; [apply src_fixed_size_is_model | apply src_fixed_size_end_to_end]. Qed.
+
+Theorem link_optimal_size_smooth_plates : forall rows ds,
+  src_optimal_size_smooth_plates rows ds = optimal_smooth rows ds /\
+  src_smooth_plates src_optimal_size_smooth_plates rows ds = smooth_plates SOptimal rows ds.
+Proof. intros. split; [apply src_optimal_size_is_model | apply src_optimal_size_end_to_end]. Qed.
+
+Theorem link_nplate_smooth_plates : forall m rows ds,
+  (forall p, src_nplate_get_plate_sample_id rows (plate_vec p rows) = dor nm <- plate_sample p rows; Ok (sample_id_z rows nm)) /\
+  src_nplate_smooth_plates m rows = nplate true m rows /\
+  src_smooth_plates (fun s d => dor r <- src_nplate_smooth_plates m s; Ok (r, d)) rows ds = smooth_plates (SNPlate true m) rows ds.
+Proof.
+  intros. split; [intro p; apply src_nplate_get_plate_sample_id_is_model|].
+  split; [apply src_nplate_is_model | apply src_nplate_end_to_end].
+Qed.
+
+Theorem link_ensemble_smooth_plates : forall ms n m rows ds fuel, length rows < fuel ->
+  src_ensemble_smooth_plates ms n m rows ds fuel = ensemble true ms n m rows ds /\
+  src_smooth_plates (fun s d => src_ensemble_smooth_plates ms n m s d fuel) rows ds = smooth_plates (SEnsemble true ms n m) rows ds.
+Proof. intros ms n m rows ds fuel H. split; [now apply src_ensemble_is_model | now apply src_ensemble_end_to_end]. Qed.
+
+Theorem link_sparse_cover_generate_and_unmask_initial_plate : forall ctrl reveal rows ds fuel,
+  length ds < fuel \/ ndistinct (all_tids ctrl rows) < fuel ->
+  (forall f : initial_inner,
+     src_generate_and_unmask_initial_plate f rows ds = if negb (forallb r_mask rows) then Err 8%Z else f rows ds) /\
+  src_sparse_cover ctrl reveal rows ds fuel = sparse_cover_inner ctrl reveal rows ds /\
+  src_generate_and_unmask_initial_plate (fun s d => src_sparse_cover ctrl reveal s d fuel) rows ds = sparse_cover ctrl reveal rows ds.
+Proof.
+  intros ctrl reveal rows ds fuel H. split; [intro f; apply src_initial_wrapper_is_check|].
+  split; [now apply src_sparse_cover_is_inner | now apply src_sparse_cover_is_model].
 Qed.
